@@ -150,8 +150,8 @@ pub fn run_case(id: usize, h: &[i64], ops: &[GOp], out: &mut Out) {
     out.stat(&format!("ix_{}", h[4]));
 }
 
-/// (end sentinel, limit check): for u32/usize the sentinel is any value no generated history reaches
-pub fn caps(ixc: i64) -> (i64, i64) { match ixc { 0 => (255, 1), _ => (3000, 0) } }
+/// (end sentinel, limit check): u8 and u16 with their true limits; for u32/usize the sentinel is any value no generated history reaches
+pub fn caps(ixc: i64) -> (i64, i64) { match ixc { 0 => (255, 1), 1 => (65535, 1), _ => (3000, 0) } }
 
 pub fn gen(seed: u64, n: usize, out: &mut Out) {
     let mut r = Rng::new(seed ^ 0xC01);
@@ -159,6 +159,24 @@ pub fn gen(seed: u64, n: usize, out: &mut Out) {
         let directed = r.chance(50);
         let ixc = if id % 120 == 3 { 0 } else { r.below(4) as i64 };
         let (cap, capcheck) = caps(ixc);
+        if id % 120 == 35 {
+            // the padding loop of extend_with_edges runs into the u8 limit: the nodes added before the panic stay
+            let mut ops: Vec<GOp> = Vec::new();
+            for k in 0..1 + r.below(4) { ops.push(("add_node".into(), vec![k as i64 + 1])); }
+            let mut flat = Vec::new();
+            for _ in 0..r.below(3) { flat.extend_from_slice(&[r.below(6) as i64, r.below(6) as i64, 5]); }
+            if r.chance(50) { flat.extend_from_slice(&[255, 0, 7]); } else { flat.extend_from_slice(&[r.below(8) as i64, 255, 7]); }
+            flat.extend_from_slice(&[0, 1, 9]);
+            ops.push(("extend_with_edges".into(), flat));
+            ops.push(("try_add_node".into(), vec![9]));
+            ops.push(("try_add_edge".into(), vec![r.below(8) as i64, r.below(8) as i64, 3]));
+            ops.push(("try_add_edge".into(), vec![254, 0, 3]));
+            ops.push(("remove_node".into(), vec![r.below(8) as i64]));
+            ops.push(("try_add_node".into(), vec![10]));
+            run_case(id, &[directed as i64, 0, 255, 1, 0], &ops, out);
+            out.stat("kind_u8_padding_limit");
+            continue;
+        }
         let mut ops: Vec<GOp> = Vec::new();
         let mut nn: usize = 0; let mut ne: usize = 0;     // approximate sizes (for drawing indices)
         if id % 120 == 3 {
